@@ -7,8 +7,8 @@ from .costream import cfield, cupvar
 
 PROPERTY = "C14"
 LEVEL = "other"
-CONFIGS_QUICK = ["std"]
-CONFIGS_THOROUGH = ["std", "alloc"]
+CONFIGS_QUICK = ["std", "std-rel"]
+CONFIGS_THOROUGH = ["std", "alloc", "std-rel", "alloc-rel"]
 EXPLANATION = (
     "Error-discipline rules on the MIR of the async bodies behind try_for_each and collect::<Result<Vec<_>,E>>: (BRANCH) in "
     "TryForEachConsumer::{send, progress, flush} every completion pulled from the group (the Some payload of group.next().await) is "
